@@ -43,11 +43,12 @@ const MUTATIONS: &[(&str, &str)] = &[
     ("d", "cd d1"), ("d", "cd \"$BASE\""), ("d", "cd \"$BASE/d 2\""), ("d", "cd \"$BASE/d1/deep\""), ("d", "cd .. "),
     ("p", "pushd \"$BASE/d1\" >/dev/null"), ("p", "pushd \"$BASE/d 2\" >/dev/null"), ("p", "popd >/dev/null 2>&1"),
     ("I", "INH1=changed"), ("I", "INH1='changed again'; export INH1"), ("U", "unset INH2"), ("r", "readonly RO=1"),
+    ("T", "TRAPV=kept; trap 'true' EXIT"),   // the test case replaces the EXIT trap the state is persisted by (known finding)
     ("v", "IFS=:"), ("B", "unset IFS"), ("v", "UID_MIN=1000"), ("v", "code=mine"), ("x", "export SCRUT_TEST_X=1"), ("v", "LINENO_FIRST=7"), ("a", "BASH_SOURCE_DIRS=(/opt '/o p')"), ("v", "PPIDX=9"), ("x", "export PATH=\"$PATH:/opt/extra\""),
 ];
 
 const PROBE: &str = r#"
-echo "--vars"; for __v in code OLDPWD uid ppid Lineno V1 V2 V3 V4 X1 X2 ARR EMPTY MAP NUM LOW UP INH1 INH2 RO IFS UID_MIN SCRUT_TEST_X LINENO_FIRST BASH_SOURCE_DIRS PPIDX; do if declare -p $__v >/dev/null 2>&1; then declare -p $__v | tr '\n' '~'; echo; else echo "$__v unset"; fi; done
+echo "--vars"; for __v in TRAPV code OLDPWD uid ppid Lineno V1 V2 V3 V4 X1 X2 ARR EMPTY MAP NUM LOW UP INH1 INH2 RO IFS UID_MIN SCRUT_TEST_X LINENO_FIRST BASH_SOURCE_DIRS PPIDX; do if declare -p $__v >/dev/null 2>&1; then declare -p $__v | tr '\n' '~'; echo; else echo "$__v unset"; fi; done
 echo "--env"; env | grep -E '^(V1|V2|X1|X2|INH1|INH2|NUM)=' | sort | tr '\n' '~'; echo
 echo "--big ${#BIG}"
 echo "--path"; echo "${PATH##*:}"
@@ -69,7 +70,8 @@ fn gen_history(r: &mut Rng) -> Vec<(String, String, bool)> {
         let mut s = String::new();
         for _ in 0..k {
             let (c, m) = loop { let x = r.pick(MUTATIONS); if fam.is_empty() || fam.contains(&x.0) || r.chance(1, 5) { break *x; } };
-            if (c == "U" || c == "r" || c == "B") && !r.chance(1, 4) { continue; }
+            if (c == "U" || c == "r" || c == "B" || c == "T") && !r.chance(1, 4) { continue; }
+            if c == "T" { classes = "T".to_string(); s = format!("{}\n", m); break; }   // alone in its test case: what is lost is exactly TRAPV
             classes.push_str(c);
             s.push_str(m); s.push('\n');
         }
